@@ -11,4 +11,5 @@ var Registry = map[string]func(args []string){
 	"chanw":    ChanW,
 	"chanr":    ChanR,
 	"neg":      Neg,
+	"client":   Client,
 }
